@@ -54,8 +54,15 @@ type MapV struct {
 type Flt struct {
 	C     float64
 	IsSym bool
-	I     *Term // BV64 signed integer it equals (when IsSym && I != nil)
-	Bits  *Term // BV64 bit pattern (when IsSym && Bits != nil)
+	I     *Term    // BV64 signed integer it equals (when IsSym && I != nil)
+	Bits  *Term    // BV64 bit pattern (when IsSym && Bits != nil)
+	Dec   *DecView // shortest decimal representation of |x| (verifrt.FloatFromDecimal)
+}
+
+// DecView: |x| = 0.d1d2...dn x 10^(E+1) with d1, dn != 0 is the shortest decimal that round-trips to x.
+type DecView struct {
+	Digits []*Term // ASCII digits, symbolic
+	E      int     // decimal exponent of the first digit
 }
 
 // ---------------- strings ----------------
